@@ -159,7 +159,7 @@ func genProxiedRequest(r *core.Rand, id, limit int) ReqSpec {
 	}
 	if r.Chance(1, 2) {
 		raw := patternBytes(r.U64(), 1+r.Intn(12))
-		sp.MD = append(sp.MD, [2]string{"X-Blob-Bin", base64.RawStdEncoding.EncodeToString(raw)})
+		sp.MD = append(sp.MD, [2]string{"X-Blob-Bin", binValue(r, raw)})
 	}
 	if r.Chance(1, 4) {
 		sp.MD = append(sp.MD, [2]string{"X-Multi", "one"}, [2]string{"X-Multi", "two"})
@@ -182,7 +182,7 @@ func genProxiedRequest(r *core.Rand, id, limit int) ReqSpec {
 	}
 	// a second and third binary key
 	if r.Chance(1, 3) {
-		sp.MD = append(sp.MD, [2]string{"X-Second-Bin", base64.RawStdEncoding.EncodeToString(patternBytes(r.U64(), 1+r.Intn(20)))})
+		sp.MD = append(sp.MD, [2]string{"X-Second-Bin", binValue(r, patternBytes(r.U64(), 1+r.Intn(20)))})
 		if r.Chance(1, 2) {
 			sp.MD = append(sp.MD, [2]string{"X-Third-Bin", base64.RawStdEncoding.EncodeToString(patternBytes(r.U64(), 1+r.Intn(5)))})
 		}
@@ -319,8 +319,7 @@ func oracleProxy(mr *muxRun, rs *reqState, cnt *[core.NumCounters]int) *Violatio
 		key := strings.ToLower(kv[0])
 		want := kv[1]
 		if strings.HasSuffix(key, "-bin") {
-			b, _ := base64.RawStdEncoding.DecodeString(kv[1])
-			want = string(b)
+			want = string(binDecode(kv[1]))
 		}
 		found := false
 		for _, v := range l.MD.Get(key) {
@@ -366,4 +365,19 @@ func oracleProxy(mr *muxRun, rs *reqState, cnt *[core.NumCounters]int) *Violatio
 		}
 	}
 	return nil
+}
+
+// binValue spells a binary metadata value the way a client may put it on the
+// wire: base64 without padding (what grpc-go sends) or with it (the gRPC wire
+// specification obliges receivers to accept both).
+func binValue(r *core.Rand, raw []byte) string {
+	if r.Chance(1, 3) {
+		return base64.StdEncoding.EncodeToString(raw)
+	}
+	return base64.RawStdEncoding.EncodeToString(raw)
+}
+
+func binDecode(v string) []byte {
+	b, _ := base64.RawStdEncoding.DecodeString(strings.TrimRight(v, "="))
+	return b
 }
